@@ -470,10 +470,10 @@ def run_subject(case, W):
 
 # ===================================================================================== property-module interface
 def cases(rng, tier):
-    for _ in range(fw.tier_scale(tier, 2500, 30000)):
+    for _ in range(fw.tier_scale(tier, 2000, 30000)):
         yield C05.gen_case(rng, vals=FALSY)
     weights = _site_weights()
-    for _ in range(fw.tier_scale(tier, 3500, 40000)):
+    for _ in range(fw.tier_scale(tier, 3000, 40000)):
         yield gen_nat_case(rng, weights)
 
 
